@@ -9,6 +9,9 @@ import "math/big"
 // double-float, long-float, complex. signed-byte and unsigned-byte are
 // converted to bignum.
 func NormalizeNumber(v0, v1 Object) (n0, n1 Object) {
+	if b, ok := v1.(Bit); ok {
+		v1 = Fixnum(b)
+	}
 top:
 	switch t0 := v0.(type) {
 	case Fixnum:
@@ -53,6 +56,9 @@ top:
 			TypePanic(NewScope(), 0, "numbers", t1, "number")
 		}
 	case Octet:
+		v0 = Fixnum(t0)
+		goto top
+	case Bit:
 		v0 = Fixnum(t0)
 		goto top
 	case SingleFloat:
